@@ -156,6 +156,13 @@ static carquet_status_t delta_decoder_init(delta_decoder_t* dec,
     if (dec->block_size / dec->mini_blocks_per_block > DELTA_MINI_BLOCK_SIZE) {
         return CARQUET_ERROR_DECODE;
     }
+    /* Mini-blocks are unpacked in groups of 8 values: a mini-block size that is
+     * not a multiple of 8 would make the unpacker read past the checked size
+     * (the format requires a multiple of 32). */
+    if (dec->block_size % dec->mini_blocks_per_block != 0 ||
+        (dec->block_size / dec->mini_blocks_per_block) % 8 != 0) {
+        return CARQUET_ERROR_DECODE;
+    }
 
     /* Total value count */
     bytes = read_uleb128(data + dec->pos, size - dec->pos, &val);
